@@ -18,6 +18,7 @@ from spil.sid.sid import Sid
 from spil.util.caching import lru_cache
 
 from spil.util.log import info, warning, debug
+from spil.util.exception import SpilException
 from spil.sid.core import sid_resolver
 from spil.sid.core.query_helper import apply_query
 from spil.sid.pathops import fs_resolver
@@ -124,6 +125,16 @@ def path_to_sid(path: str | os.Pathlike[str], config: Optional[str]) -> Sid | No
     resolved_sid = sid_resolver.dict_to_sid(fields, _type)
     if not resolved_sid:
         info('Path "{}" did resolve to fields {}, but not back to Sid'.format(path, fields))
+        return None
+
+    # reverse check: the path regex is looser than the template (literal parts like "." are read as regex,
+    # the end anchor matches before a trailing newline). The Sid must give back exactly the given path.
+    try:
+        back = fs_resolver.dict_to_path(fields, _type, config=config)
+    except SpilException:
+        back = None
+    if back is None or back.as_posix() != str(path).replace(os.sep, "/"):
+        info('Path "{}" did resolve to "{}", but this Sid has another path: "{}"'.format(path, resolved_sid, back))
         return None
 
     new_sid = Sid(from_factory=True)
